@@ -20,6 +20,7 @@ import (
 	"log"
 	"net"
 	"net/http"
+	"net/http/httptrace"
 	"os"
 	"runtime/debug"
 	"sort"
@@ -484,6 +485,7 @@ type hcConn struct {
 	gotCliSet     bool
 	cliAcks       int
 	acksAtPrevHdr int // cliAcks when the previous request HEADERS block was written
+	acksAtPrevChk int // cliAcks at the previous quiescent point
 	cliConnWUs    []hcWU
 	cliConnWU     int64
 	cliConnFlow   int64
@@ -524,6 +526,12 @@ type hcReq struct {
 	done      bool
 	attempts  []*hcStream
 	bodies    []*hcBody
+	// pool choice (C17): what httptrace.GotConn reported for this request
+	gotConns int     // number of GotConn callbacks (attempts placed by the pool)
+	asgConn  *hcConn // connection of the latest one
+	asgSeq   int     // global order of the latest one
+	asgUB    int64   // the limit in force for asgConn when the pool chose it (0 = not computed yet, -1 = not settled then)
+	asgSet   int     // index of the SETTINGS frame that limit comes from
 }
 
 type hcRun struct {
@@ -539,6 +547,7 @@ type hcRun struct {
 
 	nextOp   int
 	opsRun   int
+	asgSeq   int
 	healed   bool
 	tearing  bool
 	harness  string
@@ -1238,6 +1247,117 @@ func (r *hcRun) check() *vs.Violation {
 			}
 		}
 	}
+	if r.p.focus == "C17" && !r.p.strict && !r.tearing {
+		if v := r.checkPoolChoice(); v != nil {
+			return v
+		}
+	}
+	for _, cn := range r.conns {
+		cn.acksAtPrevChk = cn.cliAcks
+	}
+	return nil
+}
+
+func (r *hcRun) noteGotConn(rq *hcReq, c net.Conn) {
+	r.mu.Lock()
+	defer r.mu.Unlock()
+	rq.gotConns++
+	rq.asgConn = nil
+	for _, cn := range r.conns {
+		if net.Conn(cn.sc.A) == c {
+			rq.asgConn = cn
+		}
+	}
+	r.asgSeq++
+	rq.asgSeq, rq.asgUB = r.asgSeq, 0
+}
+
+// checkPoolChoice is the C17 oracle for "without StrictMaxConcurrentStreams a
+// connection that is at its limit is not chosen for new requests by the pool".
+// Evaluated at quiescent points from what httptrace.GotConn reported. Counted
+// for connection X are requests that certainly hold a place on X (a reservation
+// or a stream) from the moment the pool placed them until now:
+//   - placed exactly once, on X, RoundTrip not returned, not cancelled;
+//   - placed while the limit was settled: the client had acknowledged X's latest
+//     SETTINGS frame before the step in which it was placed, and the server has
+//     written no SETTINGS since (a request placed under an older, higher limit
+//     may have been turned away when its turn came - it then holds nothing, and
+//     under write back-pressure it can sit in its clean-up, waiting for the
+//     connection's write lock, before it retries);
+//   - no frame on the wire has ended its stream (a finished request can wait for
+//     the write lock, too, before RoundTrip returns).
+// X itself must be healthy (no GOAWAY, not closed or closing, reusable) and
+// must have seen no client reset (a reset stream is counted twice for a moment,
+// which can turn a correctly placed request away). With the limit settled at m
+// nothing turns a counted request away, so each of them was placed while the
+// others counted before it held their places: there are at most m of them.
+func (r *hcRun) checkPoolChoice() *vs.Violation {
+	delivered := func(cn *hcConn) int {
+		d, dBA := 0, cn.sc.DeliveredBA()
+		for i := 1; i < len(cn.sSettings); i++ {
+			if cn.sSettings[i].endOff <= dBA {
+				d = i
+			}
+		}
+		return d
+	}
+	by := map[*hcConn][]*hcReq{}
+	for _, rq := range r.reqs {
+		cn := rq.asgConn
+		if cn == nil || !rq.started || rq.returned {
+			continue
+		}
+		if rq.asgUB == 0 {
+			// first quiescent point after the placement
+			rq.asgUB = -1
+			if d := delivered(cn); d >= 1 && d == len(cn.sSettings)-1 && cn.acksAtPrevChk >= d {
+				rq.asgUB, rq.asgSet = max(cn.sSettings[d].mcs, 1), d
+			}
+		}
+		if rq.gotConns != 1 || rq.cancelled || rq.asgUB < 0 || rq.asgSet != len(cn.sSettings)-1 {
+			continue
+		}
+		if n := len(rq.attempts); n > 0 {
+			st := rq.attempts[n-1]
+			if st.cliRst || st.srvRst || st.srvEnd {
+				continue
+			}
+		}
+		by[cn] = append(by[cn], rq)
+	}
+	for _, cn := range r.conns {
+		s := by[cn]
+		if len(s) == 0 || cn.cc == nil || cn.auto || !cn.writable() || cn.cliClosed || len(cn.goaways) > 0 || cn.flowErr {
+			continue
+		}
+		anyRst := false
+		for _, st := range cn.order {
+			anyRst = anyRst || st.cliRst
+		}
+		for _, rq := range r.reqs {
+			anyRst = anyRst || (rq.cancelled && rq.asgConn == cn)
+		}
+		cc := cn.cc
+		cc.mu.Lock()
+		healthy := !cc.closed && !cc.closing && cc.goAway == nil && !cc.doNotReuse && cc.pendingResets == 0
+		wb := fmt.Sprintf("streams=%d reserved=%d pendingRequests=%d maxConcurrentStreams=%d", len(cc.streams), cc.streamsReserved, cc.pendingRequests, cc.maxConcurrentStreams)
+		cc.mu.Unlock()
+		if anyRst || !healthy {
+			continue
+		}
+		m := s[0].asgUB
+		if int64(len(s)) == m {
+			vs.G.Inc("probe.pool_conn_full_of_counted_requests")
+		}
+		if int64(len(s)) > m {
+			sort.Slice(s, func(i, j int) bool { return s[i].asgSeq < s[j].asgSeq })
+			var ids []int
+			for _, q := range s {
+				ids = append(ids, q.idx)
+			}
+			return vs.Violf("C17", "pool_chose_full_conn", "cli:pool_chose_conn_at_limit", "conn %d: without StrictMaxConcurrentStreams %d requests that the pool placed on this connection while its limit was settled at SETTINGS_MAX_CONCURRENT_STREAMS=%d hold a place on it at once (placed once, RoundTrip not returned, not cancelled, stream not ended by any frame; in placement order: %v): the pool chose the connection for request %d while it was at its limit (acks written %d, settings %+v; white-box: %s)", cn.idx, len(s), m, ids, ids[m], cn.cliAcks, cn.sSettings, wb)
+		}
+	}
 	return nil
 }
 
@@ -1870,7 +1990,12 @@ func (r *hcRun) caller(rq *hcReq) func(tk *vs.Task) {
 			// later (an empty DATA frame): the stream stays open until then
 			method = "HEAD"
 		}
-		req, err := http.NewRequestWithContext(ctx, method, "https://vf.test/r"+strconv.Itoa(rq.idx), nil)
+		rctx := ctx
+		if r.p.focus == "C17" {
+			// the pool's choice, as the public API reports it
+			rctx = httptrace.WithClientTrace(ctx, &httptrace.ClientTrace{GotConn: func(info httptrace.GotConnInfo) { r.noteGotConn(rq, info.Conn) }})
+		}
+		req, err := http.NewRequestWithContext(rctx, method, "https://vf.test/r"+strconv.Itoa(rq.idx), nil)
 		if err != nil {
 			panic(err)
 		}
